@@ -61,6 +61,7 @@ var c07Params = []string{`quantile((time() % 100) / 100, m0)`, `quantile by (a) 
 var c07Twins = []string{`abs({__name__=~"m.*"})`, `{__name__=~"m0|m1"} * 2`, `timestamp({__name__=~"m.+"})`, `sum by (a, b, c) (abs({__name__=~"m.*"}))`,
 	`clamp_min({__name__=~"m.*"}, 0)`, `1 + {__name__=~"m.*"}`, `{__name__=~"m.*"} > bool 1`, `ceil(-{__name__=~"m.*"})`, `deg({__name__=~"m.*"}) + on(a, b, c) m0`,
 	// a negation above an operator that has merged the equal label sets already
+	`topk(5, -{__name__=~"m.*"})`, `bottomk(3, -({__name__=~"m.*"}))`, `topk(2, abs({__name__=~"m.*"}))`, `max(-{__name__=~"m.*"})`,
 	`-abs({__name__=~"m.*"})`, `-({__name__=~"m.*"} * 2)`, `-timestamp({__name__=~"m.+"})`, `-clamp_max({__name__=~"m.*"}, 100)`, `sum by (a) (-deg({__name__=~"m.*"}))`}
 
 // atTime extracts the samples of a canonical result at time t as a vector-typed result.
@@ -564,21 +565,7 @@ func (c10Prop) Gen(seed uint64, tier string, i int) Case {
 		for range c.Dataset.Series {
 			c.Parts = append(c.Parts, r.Intn(c.NParts))
 		}
-		// series that differ in the metric name only go to different partitions
-		for i, si := range c.Dataset.Series {
-			for j := i + 1; j < len(c.Dataset.Series); j++ {
-				sj := c.Dataset.Series[j]
-				same := len(si.Labels) == len(sj.Labels) && si.Labels["__name__"] != sj.Labels["__name__"]
-				for ln, lv := range si.Labels {
-					if ln != "__name__" && sj.Labels[ln] != lv {
-						same = false
-					}
-				}
-				if same && c.Parts[i] == c.Parts[j] {
-					c.Parts[j] = (c.Parts[i] + 1) % c.NParts
-				}
-			}
-		}
+		separateTwins(&c)
 		c.Query = Pick(r, c10Twins)
 		return c
 	}
@@ -598,6 +585,27 @@ func (c10Prop) Gen(seed uint64, tier string, i int) Case {
 		c.Query = GenQuery(r.Fork(), g)
 	}
 	return c
+}
+
+// separateTwins moves series that differ in the metric name only into different partitions.
+func separateTwins(c *Case) {
+	if c.NParts < 2 {
+		return
+	}
+	for i, si := range c.Dataset.Series {
+		for j := i + 1; j < len(c.Dataset.Series) && j < len(c.Parts); j++ {
+			sj := c.Dataset.Series[j]
+			same := len(si.Labels) == len(sj.Labels) && si.Labels["__name__"] != sj.Labels["__name__"]
+			for ln, lv := range si.Labels {
+				if ln != "__name__" && sj.Labels[ln] != lv {
+					same = false
+				}
+			}
+			if same && c.Parts[i] == c.Parts[j] {
+				c.Parts[j] = (c.Parts[i] + 1) % c.NParts
+			}
+		}
+	}
 }
 
 func partition(c Case) []Dataset {
